@@ -40,6 +40,67 @@ UNITS = {
     },
 }
 
+UNITS.update({
+    "U-TAB": {
+        "backend": "kani",
+        "functions": ["fast_fft.rs: FELT_BITREVERSED_POWERS_1024", "FELT_BITREVERSED_POWERS_INVERSE_1024",
+                      "FELT_NINV_1..FELT_NINV_1024"],
+        "groups": [{"tier": "quick", "flags": [], "timeout": 900, "harnesses": [
+            TAB + h for h in ["tab_wf", "tab_square_relations", "tab_inverse_relation",
+                              "tab_bitreversed_powers", "tab_ninv", "tab_ninv_selected"]]}],
+        "complete": "symbolic table index over the whole index range (complete); exponentiation loop unwound to its fixed 10 iterations",
+        "trusted": ["Kani 0.68 / CBMC 6.11"],
+    },
+    "U-SIG": {
+        "backend": "kani",
+        "functions": ["falcon.rs: Signature::<512>::from_bytes", "Signature::<512>::to_bytes",
+                      "Signature::<1024>::from_bytes", "Signature::<1024>::to_bytes"],
+        "groups": [{"tier": "quick", "flags": [], "timeout": 2400, "jobs": 8, "harnesses": [
+            FAL + h for h in ["sig512_from_bytes_contract", "sig1024_from_bytes_contract",
+                              "sig512_round_trip", "sig1024_round_trip", "sig_cross_variant_rejected"]]}],
+        "complete": "loop-free on the real code over every byte string of length 0..=1300 (symbolic length, symbolic content) and every signature object of the variant; byte equality through a symbolic index",
+        "trusted": ["Kani 0.68 / CBMC 6.11", "alloc (Vec, concat, to_vec) as compiled by Kani"],
+    },
+    "U-SKF": {
+        "backend": "kani",
+        "functions": ["falcon.rs: SecretKey::field_element_width", "SecretKey::serialize_field_element",
+                      "SecretKey::deserialize_field_element"],
+        "groups": [{"tier": "quick", "flags": [], "timeout": 900, "harnesses": [
+            FAL + h for h in ["skf_round_trip", "skf_strict"]]}],
+        "complete": "all widths x all encodable values x all bit patterns, on the real bit_vec::BitVec; loops bounded by the field width (<= 8), unwinding assertions on",
+        "trusted": ["Kani 0.68 / CBMC 6.11", "bit_vec::BitVec as compiled by Kani (real code, not a model)"],
+    },
+    "U-SAMP": {
+        "backend": "kani",
+        "functions": ["samplerz.rs: base_sampler", "ber_exp (approx_exp replaced by its contract)"],
+        "groups": [{"tier": "quick", "flags": ["-Z", "stubbing"], "timeout": 1200, "harnesses": [
+            SMP + h for h in ["base_sampler_contract", "ber_exp_contract"]]}],
+        "complete": "base_sampler: all 2^72 inputs; ber_exp: all x in [0, 1e6], ccs in (0.5, 1], all 7-byte strings, all approx_exp results in [1, 2^63]; loops bounded by 8/18 with unwinding assertions",
+        "trusted": ["Kani 0.68 / CBMC 6.11 including its IEEE-754 model of f64 floor / div / mul",
+                    "assumed contract: approx_exp(r, ccs) in [1, 2^63] for r in [0, ln 2), ccs in [0.5, 1] (stubbed)"],
+    },
+    "U-CODEC-K": {
+        "backend": "kani",
+        "functions": ["encoding.rs: compress_coefficient"],
+        "groups": [{"tier": "quick", "flags": [], "timeout": 600, "harnesses": [
+            ENC + "compress_coefficient_contract"]}],
+        "complete": "all 65536 inputs",
+        "trusted": ["Kani 0.68 / CBMC 6.11"],
+    },
+    "U-CODEC": {
+        "backend": "verus",
+        "template": "contracts/codec.vc",
+        "trusted": ["Verus 0.2026.09.13 / Z3; vstd specifications of Vec and slices",
+                    "model of bit_vec::BitVec (from_bytes = MSB-first bits, len, index, get)",
+                    "num_integer div_mod_floor on usize = (n / d, n % d)",
+                    "usize is 64 bits; buffers shorter than 2^59 bytes"],
+        "assumption_lines": [r"external_body"],
+        "dropped": ["D3: #[cfg(test)] module, compress_slow, decompress_slow"],
+        "complete": "unbounded in n and in the buffer length",
+        "timeout": 900,
+    },
+})
+
 # property -> units by tier.  'quick' units always run; 'thorough' adds more.
 PROPS = {
     "C12": {
@@ -54,5 +115,19 @@ PROPS = {
         "technique": "Kani function-contract harnesses (full-domain, loop-free) on the real crate",
     },
 }
+
+PROPS.update({
+    "C07": {
+        "title": "Signature compression is lossless and canonical",
+        "level": "proof",
+        "quick": ["U-CODEC", "U-CODEC-K"],
+        "thorough": [],
+        "undecided_clauses": [],
+        "assumptions": [],
+        "level_text": "Unbounded deductive proof (Verus) on the text of encoding.rs::decompress/compress extracted on every run: decompress returns exactly what Algorithm 18 (written as a recursive specification, with the property's magnitude bound) returns, for every byte string and every n >= 1, including totality (no index out of bounds, no overflow); compress_coefficient is proved over all i16 by Kani.",
+        "level_note": "Assumed: the BitVec model (from_bytes/len/index/get) and div_mod_floor contract; vstd; usize = 64 bit. Generic iterator chains are rewritten to loops by catalogued rules only.",
+        "technique": "Verus contracts on mechanically extracted real functions + Kani full-domain contract harness",
+    },
+})
 
 HOOK_COMMITS = ["f2e89fa"]
